@@ -11,6 +11,9 @@ storage index of a real in-process StorageServer and, as one line, on the Lean d
   ["put", sharenum, rle-bytes]    (fabricated container file: v1 containers, immutable shares)
   ["order"]                       (tell the model the directory listing order of the bucket)
   ["addlease", now, avail, renew, cancel]        ["renew", now, secret]
+  ["alloc", now, avail, sharenum, size, renew, cancel]   allocate_buckets for ONE immutable share (BucketWriter kept open)
+  ["bwrite", sharenum, off, data]   BucketWriter.write on the open upload     ["bclose", sharenum]   BucketWriter.close
+  ["idump"]                         raw bytes of the incoming files of the open uploads
   ["cancel", sharenum, mode, cancel_secret]      sf.cancel_lease on one share file; mode "secret" passes the
                                                  cleartext secret, mode "crawler" passes lease.cancel_secret of the
                                                  matching lease read through get_leases (as LeaseCheckingCrawler does)
@@ -87,6 +90,8 @@ def secrets_of(hist):
             s.add(op[4]); s.add(op[5])
         elif op[0] == "addlease":
             s.add(op[3]); s.add(op[4])
+        elif op[0] == "alloc":
+            s.add(op[5]); s.add(op[6])
         elif op[0] == "renew":
             s.add(op[2])
         elif op[0] == "cancel":
@@ -119,6 +124,7 @@ class Impl:
         self.counter = 0
 
     def close(self):
+        self.abort_writers()
         shutil.rmtree(self.dir, ignore_errors=True)
 
     def new_si(self):
@@ -127,7 +133,24 @@ class Impl:
         self.si = struct.pack(">QQ", 0xABCD, self.counter)
         from allmydata.storage.common import storage_index_to_dir
         self.bucketdir = os.path.join(self.ss.sharedir, storage_index_to_dir(self.si))
+        self.abort_writers()
         return self.si
+
+    def abort_writers(self):
+        for bw in getattr(self, "writers", {}).values():
+            try:
+                if not bw.closed:
+                    bw.abort()
+            except Exception:  # noqa
+                pass
+        self.writers = {}
+
+    def raw_incoming(self):
+        out = {}
+        for n, bw in self.writers.items():
+            if not bw.closed and os.path.exists(bw.incominghome):
+                out[n] = open(bw.incominghome, "rb").read()
+        return out
 
     def set_now(self, now):
         c = self.ss._clock
@@ -301,6 +324,41 @@ def run_history(impl, hist, hooks=None, precheck=True):
             except Exception as e:  # noqa
                 info["exc"] = e
                 outs.append(errname(e))
+        elif kind == "alloc":
+            toks.append("alloc|%d|%d|%d|%d|%s|%s" % (op[1], op[2], op[3], op[4], op[5], op[6]))
+            impl.set_now(op[1])
+            impl.avail = op[2]
+            try:
+                got, bws = impl.ss.allocate_buckets(impl.si, unhx(op[5]), unhx(op[6]), {op[3]}, op[4])
+                for n, bw in bws.items():
+                    impl.writers[n] = bw
+                outs.append("ok:%d:%s" % (1 if bws else 0, enc_list(["%d" % n for n in sorted(got)])))
+            except Exception as e:  # noqa
+                info["exc"] = e
+                outs.append(errname(e))
+        elif kind == "bwrite":
+            toks.append("bwrite|%d|%d|%s" % (op[1], op[2], op[3]))
+            bw = impl.writers.get(op[1])
+            if bw is None or bw.closed:
+                outs.append("E:NoWriter")
+            else:
+                try:
+                    bw.write(op[2], unhx(op[3]))
+                    outs.append("ok")
+                except Exception as e:  # noqa
+                    info["exc"] = e
+                    outs.append(errname(e))
+        elif kind == "bclose":
+            toks.append("bclose|%d" % op[1])
+            bw = impl.writers.get(op[1])
+            if bw is None or bw.closed:
+                outs.append("E:NoWriter")
+            else:
+                bw.close()
+                outs.append("ok")
+        elif kind == "idump":
+            toks.append("idump")
+            outs.append(fmt_dump(impl.raw_incoming()))
         elif kind == "cancel":
             toks.append("cancel|%d|%s" % (op[1], op[3]))
             outs.append(impl.cancel(op[1], op[2], unhx(op[3]), info))
